@@ -3,7 +3,7 @@ import math
 import numpy as np
 import scipy as sp
 
-from pygradflow.linear_solver import LinearSolver
+from pygradflow.linear_solver import LinearSolver, LinearSolverError
 from pygradflow.log import logger
 from pygradflow.params import Params
 
@@ -60,6 +60,10 @@ class ConditionEstimator:
         trans_mat = mat.T
         linear_solver = self.linear_solver
 
+        if self.size == 0:
+            # empty system (e.g. all variables active): perfectly conditioned
+            return 1.0
+
         num_its = self._required_its()
         assert num_its > 0
 
@@ -91,7 +95,9 @@ class ConditionEstimator:
             yfac *= ynorm
             yprod /= ynorm
 
-            assert y.dot(yprod) > 0.0
+            if not (y.dot(yprod) > 0.0):
+                # can happen with inexact (iterative) linear solves
+                raise LinearSolverError("Condition estimate failed")
 
         pow_fac = 1.0 / (2.0 * num_its)
 
